@@ -42,7 +42,8 @@ variable {n : Nat} {l : Loop ℚ}
 /-! ## enabledness -/
 
 theorem ackStep_ok {s : Sender ℚ} {x : AckIn ℚ} (h : Inv s) (hok : AckOk s x) : ∃ s' outs, s.ackStep x = .ok s' outs := by
-  by_cases hd : x.ackno = s.last_ack
+  rcases Nat.lt_trichotomy x.ackno s.last_ack with hst | hd | hd
+  · exact ⟨_, _, ackStep_stale s x hok hst⟩
   · rcases Nat.lt_trichotomy s.dupack 2 with h2 | h2 | h2
     · exact ⟨_, _, ackStep_early s x hok hd h2⟩
     · exact ⟨_, _, ackStep_third s x hok hd h2⟩
